@@ -187,7 +187,9 @@ def y6(model: Model, rep: Report):
     R = model.cls("RepetitionCodeDescription")
     f = R.resolve("from_connectivity")
     ev = Evaluator(model, inline_methods=False)
-    ps = PathEnumerator(ev).function_paths(f, self_cls=R)
+    pe = PathEnumerator(ev)
+    pe.loop_view = True
+    ps = pe.function_paths(f, self_cls=R)
     inv, con, imap, refocus = (sym(p) for p in f.param_names[1:5])
     construct = "RepetitionCodeDescription.from_connectivity"
     n = 0
@@ -300,6 +302,28 @@ def y6(model: Model, rep: Report):
     rep.floor("return paths of from_connectivity", n, 1)
 
 
+def t_and_(conds):
+    from ..sym import t_and
+    return t_and(*conds) if conds else TRUE
+
+
+def _flatten_bool(t: Term) -> Term:
+    """a conditional boolean ``a if c else b`` as (c and a) or (not c and b)"""
+    from ..sym import t_and, t_or
+    if not isinstance(t, tuple) or not t:
+        return t
+    if t[0] == "ite":
+        c, a, b = _flatten_bool(t[1]), _flatten_bool(t[2]), _flatten_bool(t[3])
+        return t_or(t_and(c, a), t_and(t_not(c), b))
+    if t[0] == "not":
+        return t_not(_flatten_bool(t[1]))
+    if t[0] == "and":
+        return t_and(*[_flatten_bool(x) for x in t[1]])
+    if t[0] == "or":
+        return t_or(*[_flatten_bool(x) for x in t[1]])
+    return t
+
+
 def strip_gate_ops(it: Term, layer: Term) -> bool:
     # the property gate_operations of a typed layer is inlined to its field
     return it[0] == "attr" and it[2] in ("gate_operations", "_gate_operations") and (it[1] == layer or (it[1][0] == "var" and it[1][3] == layer))
@@ -327,41 +351,40 @@ def y7(model: Model, rep: Report):
         src_ok = lp.term[0] in ("attr", "call") and "gate_sequences" in show(lp.term) and not subterms(lp.term, lambda y: y[0] == "slice")
         rep.check(src_ok, "C17.Y7", construct + "[all layers]", f.loc, found=show(lp.term), required="all layers of the leading / base description", what="layers are dropped", detail="layers")
         bad: List[str] = []
+        from ..listflow import as_single_comp
+        from ..sym import t_or, equivalent
         for bp in lp.extra["paths"]:
-            inner = [e for e in bp.events if e.kind == "loop"]
-            if len(inner) != 1 or inner[0].term not in (("attr", lay, "gate_operations"), ("attr", lay, "_gate_operations")):
-                bad.append("the gates of a layer are not all visited")
-                continue
-            I = inner[0]
-            op = ("bound", "for", I.node.lineno, show(I.term))
-            ex_edge = ("in", ("attr", op, "identifier"), ("attr", s, "_exclude_gate_edge_ids"))
-            filt = None
-            kept_when = FALSE
-            from ..sym import t_or, equivalent
-            for ibp in I.extra["paths"]:
-                apps = [c for e in ibp.events if e.kind == "effect" for c in find_calls(e.term, "append") if c[2] == (op,)]
-                if apps:
-                    kept_when = t_or(kept_when, ibp.cond)
-                    filt = apps[0][1][1]
-            ats = atoms_of(kept_when)
-            ex_q = [a for a in ats if a != ex_edge]
-            ok_keep = ex_edge in ats and len(ex_q) == 1 and ex_q[0][0] == "quant" and ex_q[0][1] == "any" and equivalent(kept_when, t_not(t_or(ex_edge, ex_q[0]))) is None
-            if ok_keep:
-                comp = ex_q[0][2]
-                ok_keep = comp[0] == "comp" and comp[3][0][0] == ("attr", ("attr", op, "identifier"), "qubit_ids") and not comp[3][0][1] and comp[2][0] == "in" and comp[2][2] == ("attr", s, "_exclude_gate_qubit_ids")
-            if not ok_keep:
-                bad.append(f"a gate is kept iff {show(kept_when)} (expected: not excluded by edge and none of its qubits excluded)")
-            # parks
             flag = ("attr", s, "_only_required_parking_operations")
             layers_new = [c for e in bp.events if e.kind == "effect" for c in find_calls(e.term, "append") if c[2] and c[2][0][0] == "new" and c[2][0][1] == "GateSequenceLayer"]
             if len(layers_new) != 1:
                 bad.append(f"{len(layers_new)} layers emitted per source layer")
                 continue
             d = dict(layers_new[0][2][0][2])
-            # the filtered list is a local container filled (not re-bound) by the inner loop: it keeps its identity
-            g_after = filt if filt is not None and filt[0] == "var" else (("after", filt[1], I.node.lineno) if filt is not None and filt[0] == "loopvar" else None)
-            if d.get("_gate_operations") != g_after:
+            g_after = d.get("_gate_operations")
+            # the kept gates as one filtered listing of the layer's gates (comprehension, or the accumulator loop it abbreviates)
+            comp = as_single_comp(bp, g_after) if g_after is not None else None
+            while comp is not None and comp[0] == "var" and comp[3][0] == "comp":
+                comp = comp[3]
+            if comp is None or comp[0] != "comp" or len(comp[3]) != 1 or comp[3][0][0] not in (("attr", lay, "gate_operations"), ("attr", lay, "_gate_operations")):
+                bad.append("the gates of a layer are not all visited")
+                continue
+            gdom, gconds = comp[3][0]
+            ops_b = subterms(comp, lambda y: y[0] == "bound" and y[3] == show(gdom))
+            if len(ops_b) != 1 or comp[2] != ops_b[0]:
                 bad.append("the emitted layer does not carry the filtered gates")
+                continue
+            op = ops_b[0]
+            ex_edge = ("in", ("attr", op, "identifier"), ("attr", s, "_exclude_gate_edge_ids"))
+            kept_when = _flatten_bool(t_and_(gconds))
+            ats = atoms_of(kept_when)
+            ex_q = [a for a in ats if a != ex_edge]
+            ok_keep = ex_edge in ats and len(ex_q) == 1 and ex_q[0][0] == "quant" and ex_q[0][1] == "any" and equivalent(kept_when, t_not(t_or(ex_edge, ex_q[0]))) is None
+            if ok_keep:
+                qc = ex_q[0][2]
+                ok_keep = qc[0] == "comp" and qc[3][0][0] == ("attr", ("attr", op, "identifier"), "qubit_ids") and not qc[3][0][1] and qc[2][0] == "in" and qc[2][2] == ("attr", s, "_exclude_gate_qubit_ids")
+            if not ok_keep:
+                bad.append(f"a gate is kept iff {show(kept_when)} (expected: not excluded by edge and none of its qubits excluded)")
+            # parks
             parks = d.get("_park_operations")
             if subst(bp.cond, {flag: TRUE}) == TRUE:
                 src = parks[3] if parks is not None and parks[0] == "var" else parks
